@@ -293,7 +293,8 @@ class InversionImagingWTilde(AbstractInversionImaging):
         """
 
         if self.preloads.curvature_matrix_mapper_diag is not None:
-            return self.preloads.curvature_matrix_mapper_diag
+            # Need to copy because the off-diagonal blocks of other linear objects are written into this matrix.
+            return copy.copy(self.preloads.curvature_matrix_mapper_diag)
 
         if not self.has(cls=AbstractMapper):
             return None
